@@ -16,6 +16,8 @@ pub struct GenOpts {
     /// legacy reply handlers / overridden entry points in fam_msg programs
     pub legacy_reply: bool,
     pub overrides: bool,
+    /// at most this many legacy reply handlers per program (2 = also the "first declared wins" shape)
+    pub max_legacy_reply: usize,
     /// forward `serde(alias = ..)` through `sv::attr` (C17 only: aliases are invisible to the routing lists)
     pub aliases: bool,
 }
@@ -30,6 +32,7 @@ impl Default for GenOpts {
             allow_attrs: true,
             replies: false,
             legacy_reply: true,
+            max_legacy_reply: 2,
             overrides: true,
             aliases: false,
         }
@@ -360,7 +363,7 @@ pub fn gen_msg_program(id: &str, tape: Vec<u32>, opts: &GenOpts) -> Program {
     // legacy reply handlers (no `sv::features(replies)`): the entry point hands the raw Reply
     // to the first declared one
     if opts.legacy_reply && t.chance(25) {
-        let n = 1 + t.pick(2);
+        let n = (1 + t.pick(2)).min(opts.max_legacy_reply.max(1));
         for k in 0..n {
             let name = reg.fresh(t, 0, Kind::Reply, false);
             let pos = t.pick(methods.len() + 1);
@@ -433,17 +436,19 @@ fn gen_payload(t: &mut Tape, nparams: usize, opts: &GenOpts, mk: &mut Markers) -
     let n = 1 + t.weighted(&[45, 35, 20]);
     let mut args: Vec<Arg> = vec![];
     for _ in 0..n {
-        // names of locals of the generated dispatcher are avoided here; a payload parameter
-        // called e.g. `env` or `data` does not compile (recorded finding, probed by C08)
-        let used: Vec<String> = args
-            .iter()
-            .map(|a| a.name.clone())
-            .chain(
-                ["data", "error", "result", "payload", "deps", "env", "id", "gas_used", "events", "msg_responses", "sub_msg_resp", "msg", "contract", "info"]
-                    .iter()
-                    .map(|s| s.to_string()),
-            )
-            .collect();
+        // `data` / `error` / `result` / `payload` are the names of the handler's own leading
+        // parameters; names of locals of the generated builder / dispatcher are deliberately
+        // frequent (they must not be shadowed)
+        let used: Vec<String> = args.iter().map(|a| a.name.clone()).chain(["data", "error", "result", "payload"].iter().map(|s| s.to_string())).collect();
+        const LOCALS: &[&str] = &["gas_limit", "env", "deps", "id", "msg", "reply_on", "gas_used", "events", "msg_responses", "contract", "info"];
+        if t.chance(25) {
+            let cand = LOCALS[t.pick(LOCALS.len())].to_string();
+            if !used.contains(&cand) {
+                let ty = gen_ty(t, nparams, false, 0);
+                args.push(Arg { name: cand, ty, attrs: vec![] });
+                continue;
+            }
+        }
         let name = arg_name(t, &used);
         let ty = gen_ty(t, nparams, false, 0);
         args.push(Arg { name, ty, attrs: vec![] });
